@@ -36,7 +36,8 @@ MJMINVAL = 1e-15
 
 SIG_F1 = {"site": "addJTBJSparse", "class": "coupling-outside-qDeriv-sparsity"}
 SIG_F2 = {"site": "mjd_actuator_vel", "class": "unclamped-ctrl-in-velocity-gain"}
-SIG_F3 = {"site": "mjd_viscous_drag", "class": "mjMINVAL-guard-small-geoms"}
+SIG_F3 = {"site": "mjd_viscous_drag", "class": "mjMINVAL-guard-small-geoms"}     # fixed in /repo 186c34282; no longer attributed
+SIG_F5 = {"site": "mj_viscousForces", "class": "kutta-cos-alpha-absolute-guard"}
 SIG_F4 = {"site": "mjd_stepFD", "class": "implicit-skipfactor-with-ctrl-act-dependent-qDeriv"}
 
 
@@ -233,6 +234,7 @@ def run(ctx):
             rcase = dict(mcase, rep=rp["rep"], op="mjd_smooth_vel")
             A = mask = FD = QDC = LINQ = None
             guards, acts, tens, dofs = [], [], [], []
+            FD4 = FD16 = None
             noor = 0
             for t in rp["lines"]:
                 if t[0] == "QD":
@@ -241,6 +243,10 @@ def run(ctx):
                     mask = [int(x) for x in t[bar + 1:]]
                 elif t[0] == "FDS":
                     FD = [unhx(x) for x in t[2:]]
+                elif t[0] == "FDS4":
+                    FD4 = [unhx(x) for x in t[2:]]
+                elif t[0] == "FDS16":
+                    FD16 = [unhx(x) for x in t[2:]]
                 elif t[0] == "QDC":
                     QDC = [unhx(x) for x in t[2:]]
                 elif t[0] == "CLAMP":
@@ -249,7 +255,9 @@ def run(ctx):
                 elif t[0] == "CTRLOOR":
                     noor = int(t[1])
                 elif t[0] == "GUARD":
-                    guards.append(unhx(t[3]))
+                    gv = [unhx(x) for x in t[3:]]
+                    # (old viscous-drag quantity, relative quantity guarded since 186c34282, geom speed, proj_denom, speed^2, Kutta derivative denominator, Kutta coefficient)
+                    guards.append(gv)
                 elif t[0] == "LINQ":
                     LINQ = [unhx(x) for x in t[2:]]
                 elif t[0] == "LINA":
@@ -285,6 +293,12 @@ def run(ctx):
                 distinct.add(("S",) + case + (rp["rep"],))
             sc = 1.0 + max([abs(x) for x in A] + [abs(x) for x in FD])
             bad = [i for i in range(nv * nv) if not (abs(A[i] - FD[i]) <= 1e-5 * sc)]
+            if bad and FD4 is not None and FD16 is not None and case[5] != INT_IMPLICITFAST:
+                # a finite-difference value is an oracle only where it has converged: the values at eps/4 and eps/16 must stay
+                # within a quarter of the discrepancy (non-smooth points of |v| terms and states slower than eps are dropped)
+                conv = [i for i in bad if abs(FD[i] - FD4[i]) <= 0.25 * abs(A[i] - FD[i]) and abs(FD[i] - FD16[i]) <= 0.25 * abs(A[i] - FD[i])]
+                stats["fd_entries_not_converged"] = stats.get("fd_entries_not_converged", 0) + len(bad) - len(conv)
+                bad = conv
             stats["worst_qderiv_err"] = max(stats["worst_qderiv_err"], max([abs(A[i] - FD[i]) / sc for i in range(nv * nv) if mask[i]] + [0.0]))
             if len(samples) < 2 and nv <= 6 and any(abs(x) > 1e-6 for x in FD):
                 samples.append(dict(rcase, nv=nv, qDeriv_dense=A, finite_difference=FD))
@@ -305,10 +319,12 @@ def run(ctx):
                         # (formerly known finding C25-F2) is back; reported as an ordinary violation
                         sig = {"site": "mjd_actuator_vel", "class": "velocity-gain-times-unclamped-ctrl"}
                         stats["F2_reps"] += 1
-                    elif guards and min(guards) < MJMINVAL:
-                        sig = SIG_F3          # the mjMINVAL guard of the projected-area derivative is active for an ellipsoid-fluid geom
-                        stats["F3_reps"] += 1
-                    ctx.violation("impl_violation", dict(rcase, nv=nv, ctrl_out_of_range=noor, fluid_guard_min=(min(guards) if guards else None), entries=[entry(i) for i in inside[:4]]),
+                    elif any(len(g) >= 7 and g[6] != 0 and g[2] > 0 and g[2] * g[3] < MJMINVAL for g in guards):
+                        # the FORCE clamps cos_alpha = proj_num / max(mjMINVAL, |v| * proj_denom) for an ellipsoid-fluid geom with Kutta lift
+                        # (cm-sized semi-axes): the analytic derivative differentiates the unclamped formula
+                        sig = SIG_F5
+                        stats["F5_reps"] = stats.get("F5_reps", 0) + 1
+                    ctx.violation("impl_violation", dict(rcase, nv=nv, ctrl_out_of_range=noor, fluid_speed_times_proj_denom_min=(min([g[2] * g[3] for g in guards if len(g) >= 4]) if guards else None), entries=[entry(i) for i in inside[:4]]),
                                   expected="qDeriv = d(smooth force)/d(qvel) within 1e-5 (scaled)", observed="max scaled difference %.3g" % max(abs(A[i] - FD[i]) / sc for i in inside),
                                   theorem="C25 oracle (qDeriv vs finite differences)", signature=sig)
             # linear-terms model (tie)
